@@ -8,4 +8,6 @@ mkdir -p "$ROOT/.build" "$ROOT/evidence" "$ROOT/replays"
 cp /repo/go.sum go.sum 2>/dev/null
 go build -tags verif -o "$ROOT/.build/vcheck-warm" ./cmd/vcheck || exit 1
 rm -f "$ROOT/.build/vcheck-warm"
+# warm the race-enabled standard library and harness too (C06)
+go build -race -tags verif -o "$ROOT/.build/c06h-warm" ./cmd/c06h && rm -f "$ROOT/.build/c06h-warm"
 echo "setup ok"
